@@ -22,6 +22,7 @@ type vClient struct {
 	listGate  chan struct{} // a token lets one List return
 	watchGate chan struct{} // a token lets one Watch connect
 	events    chan watch.Event
+	drop      chan struct{} // a token makes the server close one open stream
 	listErr   error
 }
 
@@ -56,6 +57,8 @@ func (c *vClient) Watch(ctx context.Context, _ metav1.ListOptions) (watch.Interf
 				case <-ctx.Done():
 					return
 				}
+			case <-c.drop:
+				return // the server closes the stream
 			case <-st.stopch:
 				return
 			case <-ctx.Done():
@@ -74,7 +77,7 @@ func (c *vClient) Watch(ctx context.Context, _ metav1.ListOptions) (watch.Interf
 // VerifC12_Watcher: real watcher + sessions; resets (relists) and shutdown arrive
 // while Watch() is still connecting, connected, or between reconnects.
 func VerifC12_Watcher() {
-	cl := &vClient{listGate: make(chan struct{}, 1), watchGate: make(chan struct{}, 4), events: make(chan watch.Event, 4)}
+	cl := &vClient{listGate: make(chan struct{}, 1), watchGate: make(chan struct{}, 4), events: make(chan watch.Event, 4), drop: make(chan struct{}, 2)}
 	ctx, cancel := context.WithCancel(context.Background())
 	stop := make(chan struct{})
 	w := newWatcher(ctx, vLog{}, stop, cl)
@@ -91,6 +94,13 @@ func VerifC12_Watcher() {
 			zzverif.Quiesce()
 		}
 		zzverif.Reach("C12/watcher/reset-returned")
+		if zzverif.NondetInt("drop", 0, 1) == 1 {
+			// the server drops the stream; the watcher reconnects after its retry delay
+			cl.drop <- struct{}{}
+			cl.watchGate <- struct{}{}
+			zzverif.Quiesce()
+			zzverif.Reach("C12/watcher/dropped")
+		}
 	}
 	if zzverif.NondetInt("trigger", 0, 1) == 0 {
 		close(stop)
@@ -243,7 +253,7 @@ func VerifC12_Controller() {
 func VerifC12_Lister() { vListerCycle("C12/lister") }
 
 func VerifC12_Full() {
-	cl := &vClient{listGate: make(chan struct{}, 4), watchGate: make(chan struct{}, 4), events: make(chan watch.Event, 4)}
+	cl := &vClient{listGate: make(chan struct{}, 4), watchGate: make(chan struct{}, 4), events: make(chan watch.Event, 4), drop: make(chan struct{}, 2)}
 	ctx, cancel := context.WithCancel(context.Background())
 	b := NewBuilder().Context(ctx).Log(vLog{}).Client(cl)
 	b.Lister().RefreshPeriod(time.Duration(10))
